@@ -106,6 +106,12 @@ class FakeProcess:
         self.started = True
         w.procs[self.pid] = self
         w.rec("start", slot=self._slot(), pid=self.pid)
+        ticks = w.scn["ticks"]
+        if 1 <= w.tick <= len(ticks) and self._slot() in ticks[w.tick - 1].get("boot", []):
+            # the replacement crashes while booting: dead before the manager looks at it for the first time
+            self.alive = False
+            self.exit_status = 1
+            w.rec("die", slot=self._slot(), pid=self.pid, s="boot")
 
     def terminate(self) -> None:
         assert WORLD is not None
@@ -157,7 +163,13 @@ class FakeQueue:
 
 
 class FakeEvent:
+    def __init__(self) -> None:
+        self.waits = 0
+
     def wait(self, timeout: Any = None) -> bool:
+        self.waits += 1
+        if self.waits > 300:
+            raise RuntimeError("manager spins in a startup wait")     # would hang forever: no supervision any more
         return True
 
 
